@@ -29,6 +29,8 @@ def describe(r):
         run_state = ""
         if ev[0] == 1 and len(ev) >= 7 and ev[6] != (1 if ob[0] == 0x76 else 0):
             run_state = " and was left %s" % "+".join(w for b, w in ((1, "halted"), (2, "stopped"), (4, "with the halt bug armed")) if ev[6] & b or (b == 1 and ev[6] == 0))
+        if ev[0] == 1 and len(ev) >= 8 and ev[7] >= 0:
+            run_state += " (a key event arrived after machine cycle %d of it)" % ev[7]
         return ("instruction %s from registers %s: the real CPU produced registers %s in %d cycles%s with bus log %s - not SM83!Exec's result"
                 % (name, ev[1], post, n, run_state, json.dumps(ev[3])[:300]))
     return "daa.csv row %s disagrees with SM83!Daa" % ev[1:]
